@@ -25,7 +25,18 @@ Fixpoint built_after (b : bool) (ops : list pr_op) : bool :=
   | OpLoad _ :: ops' => built_after false ops'
   | OpBuild :: ops' => built_after true ops'
   | OpScaled _ :: ops' => built_after true ops'
+  | OpBorrow _ :: ops' => built_after true ops'
   | _ :: ops' => built_after b ops'
+  end.
+
+(** does the certificate field stem from a plain search (or is it empty)?  is_borrow_realizable leaves the sequence of its
+    last search — found with borrowed tokens in both markings — behind; every other writer overwrites or clears it. *)
+Fixpoint cert_plain (b : bool) (ops : list pr_op) : bool :=
+  match ops with
+  | [] => b
+  | OpBorrow _ :: ops' => cert_plain false ops'
+  | OpCert :: ops' => cert_plain b ops'
+  | _ :: ops' => cert_plain true ops'
   end.
 
 (** a fresh object: loaded with [fl], and built when [b] *)
@@ -38,8 +49,9 @@ Definition cert_of_flow (V : list N) (E : list edge) (fl : list Z) (c : option (
   exists ms md, bo_verdict (is_realizable (build_petri_net_from_flow V E fl) ms md) = Found s.
 
 (** state = fresh object up to the certificate field *)
-Definition like_fresh (V : list N) (E : list edge) (fl : list Z) (b : bool) (st : pr_state) : Prop :=
-  pr_flow st = fl /\ pr_built st = pr_built (fresh V E fl b) /\ cert_of_flow V E fl (pr_cert st).
+Definition like_fresh (V : list N) (E : list edge) (fl : list Z) (b cp : bool) (st : pr_state) : Prop :=
+  pr_flow st = fl /\ pr_built st = pr_built (fresh V E fl b) /\ (cp = true -> cert_of_flow V E fl (pr_cert st)) /\
+  (cp = false -> b = true).        (* a borrow leaves a built object behind; only a reload un-builds, and it clears the field *)
 
 (** ** The scaled search leaves exactly the fresh built state, whatever state it starts from *)
 
@@ -64,73 +76,116 @@ Proof.
     reflexivity.
 Qed.
 
+(** ** The borrow search: flow untouched, net rebuilt from the flow, the SAVED markings put back *)
+
+Lemma do_build_flow V E st st' : pr_flow st = pr_flow st' -> do_build V E st = do_build V E st'.
+Proof. intros H. unfold do_build. now rewrite H. Qed.
+
+Lemma borrow_loop_state V E species M0s MTs combs : forall st,
+  pr_built st = Some (Built (b_net (build_petri_net_from_flow V E (pr_flow st))) M0s MTs) ->
+  let r := fst (borrow_loop V E species M0s MTs st combs) in
+  pr_flow r = pr_flow st /\
+  pr_built r = Some (Built (b_net (build_petri_net_from_flow V E (pr_flow st))) M0s MTs).
+Proof.
+  induction combs as [|comb combs IH]; intros st Hb; simpl.
+  - split; [reflexivity|exact Hb].
+  - destruct (bo_verdict (is_realizable _ DEFAULT_MAX_STATES DEFAULT_MAX_DEPTH)); simpl;
+      try (split; reflexivity); apply (IH (PR _ _ _)); reflexivity.
+Qed.
+
+Lemma borrow_loop_ans V E species M0s MTs combs st st' :
+  pr_flow st = pr_flow st' ->
+  snd (borrow_loop V E species M0s MTs st combs) = snd (borrow_loop V E species M0s MTs st' combs).
+Proof.
+  intros H. destruct combs as [|comb combs]; simpl; [reflexivity|]. rewrite H. reflexivity.
+Qed.
+
+Lemma built_eta b : Built (b_net b) (b_M0 b) (b_MT b) = b.
+Proof. now destruct b. Qed.
+
 (** ** One call preserves "like a fresh object" *)
 
 Definition flow_after (fl : list Z) (op : pr_op) : list Z := last_flow fl [op].
 Definition built_after1 (b : bool) (op : pr_op) : bool := built_after b [op].
+Definition cert_plain1 (b : bool) (op : pr_op) : bool := cert_plain b [op].
 
-Lemma step_like_fresh V E fl b st op :
-  like_fresh V E fl b st ->
-  like_fresh V E (flow_after fl op) (built_after1 b op) (fst (pr_step V E st op)).
+Lemma no_cert_of_flow V E fl : cert_of_flow V E fl None.
+Proof. intros s Hs. discriminate. Qed.
+
+Lemma step_like_fresh V E fl b cp st op :
+  like_fresh V E fl b cp st ->
+  like_fresh V E (flow_after fl op) (built_after1 b op) (cert_plain1 cp op) (fst (pr_step V E st op)).
 Proof.
-  intros (Hf & Hb & Hc). unfold like_fresh, flow_after, built_after1.
-  destruct op as [ms md|k| | |f]; simpl.
+  intros (Hf & Hb & Hc & Hcb). unfold like_fresh, flow_after, built_after1, cert_plain1.
+  destruct op as [ms md|k| | |f|mb]; simpl.
   - unfold do_real. destruct (pr_built st) as [bt|] eqn:Eb; simpl.
-    + split; [exact Hf|split].
+    + split; [exact Hf|split; [|split; [|discriminate]]].
       * rewrite <- Hb. reflexivity.
-      * intros s Hs. destruct b; simpl in Hb; [|discriminate].
+      * intros _ s Hs. destruct b; simpl in Hb; [|discriminate].
         injection Hb as ->. rewrite <- Hf.
         destruct (bo_verdict _) eqn:Ev; try discriminate. injection Hs as ->.
         exists ms, md. rewrite Hf in *. exact Ev.
-    + split; [exact Hf|split; [rewrite Eb; exact Hb|exact Hc]].
-  - rewrite scaled_loop_state. rewrite Hf. split; [reflexivity|split; [reflexivity|]].
-    intros s Hs. discriminate.
-  - split; [exact Hf|split; [exact Hb|exact Hc]].
-  - unfold do_build. simpl. rewrite Hf. split; [reflexivity|split; [reflexivity|]]. intros s Hs; discriminate.
-  - split; [reflexivity|split; [reflexivity|]]. intros s Hs; discriminate.
+    + split; [exact Hf|split; [rewrite Eb; exact Hb|split; [|discriminate]]].
+      intros _. destruct b; simpl in Hb; [discriminate|].
+      destruct cp; [exact (Hc eq_refl)|]. specialize (Hcb eq_refl). discriminate.
+  - rewrite scaled_loop_state. rewrite Hf.
+    split; [reflexivity|split; [reflexivity|split; [intros _; apply no_cert_of_flow|discriminate]]].
+  - split; [exact Hf|split; [exact Hb|split; [exact Hc|exact Hcb]]].
+  - unfold do_build. simpl. rewrite Hf.
+    split; [reflexivity|split; [reflexivity|split; [intros _; apply no_cert_of_flow|discriminate]]].
+  - split; [reflexivity|split; [reflexivity|split; [intros _; apply no_cert_of_flow|discriminate]]].
+  - unfold do_borrow.
+    assert (E0 : exists st0, (match pr_built st with None => do_build V E st | Some _ => st end) = st0 /\
+                 pr_flow st0 = fl /\ pr_built st0 = Some (build_petri_net_from_flow V E fl)).
+    { destruct (pr_built st) as [bt|] eqn:Eb.
+      - exists st. split; [reflexivity|split; [exact Hf|]]. rewrite Eb. destruct b; simpl in Hb; [exact Hb|discriminate].
+      - exists (do_build V E st). split; [reflexivity|]. unfold do_build. simpl. now rewrite Hf. }
+    destruct E0 as (st0 & -> & Hf0 & Hb0). rewrite Hb0.
+    pose proof (borrow_loop_state V E (sorted_vertices V) (b_M0 (build_petri_net_from_flow V E fl))
+                  (b_MT (build_petri_net_from_flow V E fl))
+                  (borrow_vectors mb (length (sorted_vertices V))) st0) as H.
+    rewrite Hf0 in H. rewrite built_eta in H. specialize (H Hb0). destruct H as [H1 H2].
+    split; [exact H1|split; [exact H2|split; [discriminate|reflexivity]]].
 Qed.
 
-Lemma last_flow_app ops1 : forall fl ops2, last_flow fl (ops1 ++ ops2) = last_flow (last_flow fl ops1) ops2.
-Proof. induction ops1 as [|op ops1 IH]; intros fl ops2; simpl; [reflexivity|]. destruct op; apply IH. Qed.
-
-Lemma built_after_app ops1 : forall b ops2, built_after b (ops1 ++ ops2) = built_after (built_after b ops1) ops2.
-Proof. induction ops1 as [|op ops1 IH]; intros b ops2; simpl; [reflexivity|]. destruct op; apply IH. Qed.
-
-Lemma exec_like_fresh V E ops : forall fl b st,
-  like_fresh V E fl b st ->
-  like_fresh V E (last_flow fl ops) (built_after b ops) (pr_exec V E st ops).
+Lemma exec_like_fresh V E ops : forall fl b cp st,
+  like_fresh V E fl b cp st ->
+  like_fresh V E (last_flow fl ops) (built_after b ops) (cert_plain cp ops) (pr_exec V E st ops).
 Proof.
-  induction ops as [|op ops IH]; intros fl b st H; simpl.
+  induction ops as [|op ops IH]; intros fl b cp st H; simpl.
   - exact H.
   - unfold pr_exec. simpl. fold (pr_exec V E (fst (pr_step V E st op)) ops).
-    pose proof (step_like_fresh V E fl b st op H) as H1.
-    specialize (IH _ _ _ H1).
-    unfold flow_after, built_after1 in IH.
+    pose proof (step_like_fresh V E fl b cp st op H) as H1.
+    specialize (IH _ _ _ _ H1).
+    unfold flow_after, built_after1, cert_plain1 in IH.
     destruct op; simpl in *; exact IH.
 Qed.
 
-Lemma loaded_like_fresh V E fl : like_fresh V E fl false (pr_loaded fl).
-Proof. split; [reflexivity|split; [reflexivity|]]. intros s Hs; discriminate. Qed.
+Lemma loaded_like_fresh V E fl : like_fresh V E fl false true (pr_loaded fl).
+Proof. split; [reflexivity|split; [reflexivity|split; [intros _; apply no_cert_of_flow|discriminate]]]. Qed.
 
 (** ** The answers *)
 
-(** the answer of a call is a function of the built net (is_realizable), of the flow alone (scaled
+(** the answer of a call is a function of the built net (is_realizable), of the flow alone (scaled and borrow
     search), of the certificate field (certificate) — never of anything else in the state *)
-Lemma answer_like_fresh V E fl b st op :
-  like_fresh V E fl b st ->
+Lemma answer_like_fresh V E fl b cp st op :
+  like_fresh V E fl b cp st ->
   snd (pr_step V E st op) =
   match op with
   | OpCert => ACert (pr_cert st)
   | _ => snd (pr_step V E (fresh V E fl b) op)
   end.
 Proof.
-  intros (Hf & Hb & Hc). destruct op as [ms md|k| | |f]; simpl.
+  intros (Hf & Hb & Hc & _). destruct op as [ms md|k| | |f|mb]; simpl.
   - unfold do_real. rewrite Hb. destruct (pr_built (fresh V E fl b)); reflexivity.
   - rewrite Hf. replace (pr_flow (fresh V E fl b)) with fl by (destruct b; reflexivity).
     apply scaled_loop_ans.
   - reflexivity.
   - reflexivity.
   - reflexivity.
+  - unfold do_borrow. destruct b; simpl in Hb |- *; rewrite Hb; simpl; rewrite ?Hb; simpl.
+    + apply borrow_loop_ans. exact Hf.
+    + rewrite Hf. apply borrow_loop_ans. exact Hf.
 Qed.
 
 (** ** Connecting [pr_run] (what the correspondence evaluates) with [pr_exec] / [pr_step] *)
@@ -167,15 +222,15 @@ Lemma main_history_state :
   let fl := last_flow flow ops in
   pr_flow st = fl /\
   pr_built st = (if built_after false ops then Some (build_petri_net_from_flow V E fl) else None) /\
-  (forall sq, pr_cert st = Some sq ->
+  (forall sq, cert_plain true ops = true -> pr_cert st = Some sq ->
      realizes E fl sq /\
      ((forall e, In e E -> NoDup (map fst (fst e))) -> Forall nonneg (markings_along E zero sq))).
 Proof.
   intros V E flow ops st fl.
-  destruct (exec_like_fresh V E ops flow false _ (loaded_like_fresh V E flow)) as (Hf & Hb & Hc).
+  destruct (exec_like_fresh V E ops flow false true _ (loaded_like_fresh V E flow)) as (Hf & Hb & Hc & _).
   fold st fl in Hf, Hb, Hc. split; [exact Hf|split].
   - rewrite Hb. unfold fresh. destruct (built_after false ops); reflexivity.
-  - intros sq Hs. destruct (Hc sq Hs) as (ms & md & Hv).
+  - intros sq Hp Hs. destruct (Hc Hp sq Hs) as (ms & md & Hv).
     exact (main_realizable_sound V E fl ms md sq Hv).
 Qed.
 
@@ -194,14 +249,14 @@ Lemma main_history_independence :
   pr_built (fst (pr_step V E st op)) = pr_built (fst (pr_step V E fr op)).
 Proof.
   intros V E flow ops1 op ops2 st fr.
-  pose proof (exec_like_fresh V E ops1 flow false _ (loaded_like_fresh V E flow)) as H. fold st in H.
-  split; [apply pr_run_nth|split; [exact (answer_like_fresh V E _ _ st op H)|]].
-  pose proof (step_like_fresh V E _ _ st op H) as (Hf1 & Hb1 & _).
-  assert (Hfr : like_fresh V E (last_flow flow ops1) (built_after false ops1) fr).
+  pose proof (exec_like_fresh V E ops1 flow false true _ (loaded_like_fresh V E flow)) as H. fold st in H.
+  split; [apply pr_run_nth|split; [exact (answer_like_fresh V E _ _ _ st op H)|]].
+  pose proof (step_like_fresh V E _ _ _ st op H) as (Hf1 & Hb1 & _).
+  assert (Hfr : like_fresh V E (last_flow flow ops1) (built_after false ops1) true fr).
   { unfold fr, fresh. destruct (built_after false ops1); simpl.
-    - split; [reflexivity|split; [reflexivity|]]. intros s Hs; discriminate.
+    - split; [reflexivity|split; [reflexivity|split; [intros _; apply no_cert_of_flow|discriminate]]].
     - apply loaded_like_fresh. }
-  pose proof (step_like_fresh V E _ _ fr op Hfr) as (Hf2 & Hb2 & _).
+  pose proof (step_like_fresh V E _ _ _ fr op Hfr) as (Hf2 & Hb2 & _).
   split; congruence.
 Qed.
 
@@ -226,4 +281,22 @@ Proof. vm_compute. reflexivity. Qed.
 Example ex_history_state_nonvacuous :
   pr_cert (pr_exec ex_V ex_E (pr_loaded ex_flow) ex_ops) = Some [0;0;1;1;2;2;3;3]%N /\
   last_flow ex_flow ex_ops = [2%Z; 2%Z; 2%Z; 2%Z] /\ built_after false ex_ops = true.
+Proof. vm_compute. repeat split. Qed.
+
+(** Non-vacuity for the borrow search: autocatalysis  A + X -> 2 X,  {} -> A,  X -> {}  with flow 1,1,1 is not realizable,
+    with one borrowed X it is; the sequence the borrow search leaves in the certificate field ([feed; auto; out]) is NOT an
+    ordering of the plain pathway (auto needs an X first) — [cert_plain] is false at that point — and a following plain
+    search answers "not realizable" and clears the field, exactly like a fresh object. *)
+Definition exb_V : list N := [0%N; 1%N].
+Definition exb_E : list edge :=
+  [ ([(0%N, 1%Z); (1%N, 1%Z)], [(1%N, 2%Z)]); ([], [(0%N, 1%Z)]); ([(1%N, 1%Z)], []) ].
+Definition exb_flow : list Z := [1%Z; 1%Z; 1%Z].
+Definition exb_ops : list pr_op :=
+  [OpBuild; OpReal DEFAULT_MAX_STATES DEFAULT_MAX_DEPTH; OpBorrow 1; OpCert;
+   OpReal DEFAULT_MAX_STATES DEFAULT_MAX_DEPTH; OpCert].
+Definition exb_answers : list pr_ans := map fst (pr_run exb_V exb_E (pr_loaded exb_flow) exb_ops).
+
+Example ex_borrow_history :
+  exb_answers = [ADone; AReal NotFound; ABorrow (Some [0%Z; 1%Z]); ACert (Some [1%N; 0%N; 2%N]); AReal NotFound; ACert None] /\
+  cert_plain true (firstn 4 exb_ops) = false /\ cert_plain true exb_ops = true.
 Proof. vm_compute. repeat split. Qed.
